@@ -462,4 +462,92 @@ Section FeatureSpace.
     rewrite (mulmxA (f_U *m _)) (mulmxA (f_U *m _)) -(mulmxA f_U) dmap_mul.
     by rewrite dmap_sq_isq.
   Qed.
+
+  (* a function of X^T X acts on its eigenvectors through the eigenvalues *)
+  Lemma fc_eig k' (V' : 'M[F]_(m, k')) (S' : 'cV[F]_k') f :
+    (X^T *m X) *m V' = V' *m diag_mx S'^T -> fc f *m V' = V' *m dmap f S'.
+  Proof.
+    move=> h; set Z := UC^T *m V'.
+    have hZ : dmap id vC *m Z = Z *m dmap id S'.
+      rewrite /Z mulmxA -!dmap_id.
+      have -> : diag_mx vC^T *m UC^T = UC^T *m (X^T *m X).
+        by rewrite XtX_fc fcE !mulmxA HUC1 mul1mx dmap_id.
+      by rewrite -(mulmxA UC^T) h mulmxA.
+    have hfZ : dmap f vC *m Z = Z *m dmap f S'.
+      apply/matrixP=> i j; rewrite mul_dmap_mx mul_mx_dmap.
+      move/matrixP/(_ i j): hZ; rewrite mul_dmap_mx mul_mx_dmap => e.
+      have [->|z0] := eqVneq (Z i j) 0; first by rewrite mulr0 mul0r.
+      have -> : vC i 0 = S' j 0 by apply: (mulIf z0); rewrite e mulrC.
+      by rewrite mulrC.
+    by rewrite fcE -mulmxA -(mulmxA UC) -/Z hfZ mulmxA /Z mulmxA UCUCt mul1mx.
+  Qed.
 End FeatureSpace.
+
+(* ------------------------------------------------------------------ top-k uniqueness *)
+(* Two orthonormal families of eigenvectors of a symmetric matrix for the same eigenvalues
+   S, separated from the remaining spectrum, span the same invariant subspace: every
+   "function of the retained part" U f(S) U^T coincides.  The remaining eigenvectors
+   (Uc, Sc) are a hypothesis (their existence is the spectral theorem, not derived here). *)
+Section TopK.
+  Variable F : rcfType.
+  Variables (n k r : nat) (K : 'M[F]_n).
+  Variables (U1 U2 : 'M[F]_(n, k)) (S : 'cV[F]_k) (Uc : 'M[F]_(n, r)) (Sc : 'cV[F]_r).
+  Hypothesis Ksym : K^T = K.
+  Hypothesis H11 : U1^T *m U1 = 1%:M.
+  Hypothesis H12 : K *m U1 = U1 *m diag_mx S^T.
+  Hypothesis H21 : U2^T *m U2 = 1%:M.
+  Hypothesis H22 : K *m U2 = U2 *m diag_mx S^T.
+  Hypothesis Hc2 : K *m Uc = Uc *m diag_mx Sc^T.
+  Hypothesis Hcomplete : U1 *m U1^T + Uc *m Uc^T = 1%:M.
+  Hypothesis Hgap : forall i j, Sc i 0 != S j 0.
+
+  Let R : 'M[F]_k := U1^T *m U2.
+
+  Lemma tr_eig m' (U : 'M[F]_(n, m')) (d : 'rV[F]_m') :
+    K *m U = U *m diag_mx d -> U^T *m K = diag_mx d *m U^T.
+  Proof. by move=> h; rewrite -{1}Ksym -trmx_mul h trmx_mul tr_diag_mx. Qed.
+
+  Lemma topk_Z0 : Uc^T *m U2 = 0.
+  Proof.
+    set Z := Uc^T *m U2.
+    have hZ : diag_mx Sc^T *m Z = Z *m diag_mx S^T.
+      by rewrite /Z mulmxA -(tr_eig Hc2) -!mulmxA H22.
+    apply/matrixP=> i j; move/matrixP/(_ i j): hZ.
+    rewrite mul_diag_mx mul_mx_diag !mxE [X in _ = X]mulrC => /eqP.
+    by rewrite -subr_eq0 -mulrBl mulf_eq0 subr_eq0 (negbTE (Hgap i j)) /= => /eqP.
+  Qed.
+
+  Lemma topk_U2 : U2 = U1 *m R.
+  Proof.
+    by rewrite /R mulmxA -[LHS]mul1mx -Hcomplete mulmxDl -(mulmxA Uc) topk_Z0 mulmx0 addr0.
+  Qed.
+
+  Lemma topk_RtR : R^T *m R = 1%:M.
+  Proof. by rewrite /R trmx_mul trmxK -mulmxA -/R -topk_U2. Qed.
+
+  Lemma topk_RRt : R *m R^T = 1%:M.
+  Proof. exact: mulmx1C topk_RtR. Qed.
+
+  Lemma topk_comm f : dmap f S *m R = R *m dmap f S.
+  Proof.
+    have hR : diag_mx S^T *m R = R *m diag_mx S^T.
+      by rewrite /R mulmxA -(tr_eig H12) -!mulmxA H22.
+    apply/matrixP=> i j; rewrite mul_dmap_mx mul_mx_dmap.
+    move/matrixP/(_ i j): hR; rewrite dmap_id mul_dmap_mx mul_mx_dmap => h.
+    have [->|r0] := eqVneq (R i j) 0; first by rewrite mulr0 mul0r.
+    have -> : S i 0 = S j 0.
+      by apply: (mulIf r0); rewrite h mulrC.
+    by rewrite mulrC.
+  Qed.
+
+  Lemma topk_aux f (Q : 'M[F]_k) :
+    U2 = U1 *m Q -> Q *m Q^T = 1%:M -> dmap f S *m Q = Q *m dmap f S ->
+    U2 *m dmap f S *m U2^T = U1 *m dmap f S *m U1^T.
+  Proof.
+    move=> -> hQ hc.
+    by rewrite trmx_mul !mulmxA -(mulmxA U1) -hc (mulmxA U1) -(mulmxA _ Q) hQ mulmx1.
+  Qed.
+
+  Theorem topk_unique f : U2 *m dmap f S *m U2^T = U1 *m dmap f S *m U1^T.
+  Proof. exact: (topk_aux topk_U2 topk_RRt (topk_comm f)). Qed.
+End TopK.
